@@ -79,6 +79,11 @@ CLAIMED = {
   note="Trusted: Go type checker, go/ssa, the explorer (closures inlined); os.Rename atomicity.",
   technique="path-sensitive SSA ordering/typestate analysis of file-system effects (must-precede, test-and-set, drop-only-if guard), custom checker",
   ref="DESIGN.md section 4 C16"),
+ "C09": dict(
+  text="Static analysis of the shipping path: the ring cursor's success returns require sequence continuity (everything else is 'out of buf'); unknown resume positions are answered ERR_NOT_FOUND unless they equal the current position, and the follower then zeroes its position and asks for a full transfer; Aof.PushLock publishes every appended record to the ring on every path with the ring mutex taken before the append mutex is released; the follower hands every record to its three pipelines once each in order and terminates all three on every exit; the full-transfer bound is last offset + 1 and the file transfer stops at the bound. Ring overflow under slow followers, reconnect races and snapshot convergence need running nodes and are not decided, hence 'other'.",
+  note="Trusted: Go type checker, go/ssa, the explorer and its branch history.",
+  technique="path-sensitive SSA guard/typestate analysis (continuity guards, hand-over-hand lock order, channel fan-out sequence), custom checker",
+  ref="DESIGN.md section 4 C09"),
 }
 
 NA = {
